@@ -532,7 +532,7 @@ Definition load_breaks (M : Metric) (K : Codec M) : Prop :=
   exists (c : cfg M) (pre : list val) (bs : list val),
     behaviour M K c 2 (pre ++ [o_save 0 0; o_load 1 0] ++ cont_on bs 0) <>
     behaviour M K c 2 (pre ++ [o_save 0 0; o_load 1 0] ++ cont_on bs 1).
-(* C10 statement: after reset() the object behaves differently from a fresh one *)
+(* C10 statement (true of the PRE-FIX variant only): after reset() the object behaves differently from a fresh one *)
 Definition reset_breaks (M : Metric) (K : Codec M) : Prop :=
   exists (c : cfg M) (pre : list val) (bs : list val),
     behaviour M K c 2 (pre ++ [o_reset 0; o_new 1] ++ cont_on bs 0) <>
@@ -545,55 +545,56 @@ Definition ctr_b (x : Z) : val := VL [vrow [x]; VL []; vrow [1%Z]].
 Definition ctr_pre : list val := [o_upd 0 (ctr_b 1); o_upd 0 (ctr_b 0)].
 Definition ctr_cont : list val := [ctr_b 1; ctr_b 1; ctr_b 1].
 
-Lemma wctr_load_breaks : load_breaks (wctr false) (wctr_codec false).
+Lemma wctr_load_breaks : load_breaks (wctr V_code) (wctr_codec V_code).
 Proof. exists wcfg3, ctr_pre, ctr_cont. vm_compute. discriminate. Qed.
-Lemma wctr_reset_breaks : reset_breaks (wctr false) (wctr_codec false).
+Lemma wctr_reset_breaks : reset_breaks (wctr V_pre) (wctr_codec V_pre).
 Proof. exists wcfg3, ctr_pre, ctr_cont. vm_compute. discriminate. Qed.
 (* the values of the witness: original 2/3, 2/3, 1 -- restored 1/2, 1, 1 *)
 Lemma wctr_load_witness_values :
-  behaviour (wctr false) (wctr_codec false) wcfg3 2 (ctr_pre ++ [o_save 0 0; o_load 1 0] ++ cont_on ctr_cont 0)
+  behaviour (wctr V_code) (wctr_codec V_code) wcfg3 2 (ctr_pre ++ [o_save 0 0; o_load 1 0] ++ cont_on ctr_cont 0)
     = [VL [vq (q 2 3)]; VL [vq (q 2 3)]; VL [vq (q 1 1)]] /\
-  behaviour (wctr false) (wctr_codec false) wcfg3 2 (ctr_pre ++ [o_save 0 0; o_load 1 0] ++ cont_on ctr_cont 1)
+  behaviour (wctr V_code) (wctr_codec V_code) wcfg3 2 (ctr_pre ++ [o_save 0 0; o_load 1 0] ++ cont_on ctr_cont 1)
     = [VL [vq (q 1 2)]; VL [vq (q 1 1)]; VL [vq (q 1 1)]].
 Proof. split; vm_compute; reflexivity. Qed.
 (* reset witness: first value after reset 0, fresh 1 *)
 Lemma wctr_reset_witness_values :
-  behaviour (wctr false) (wctr_codec false) wcfg3 2 (ctr_pre ++ [o_reset 0; o_new 1] ++ cont_on [ctr_b 1] 0) = [VL [vq (q 0 1)]] /\
-  behaviour (wctr false) (wctr_codec false) wcfg3 2 (ctr_pre ++ [o_reset 0; o_new 1] ++ cont_on [ctr_b 1] 1) = [VL [vq (q 1 1)]].
+  behaviour (wctr V_pre) (wctr_codec V_pre) wcfg3 2 (ctr_pre ++ [o_reset 0; o_new 1] ++ cont_on [ctr_b 1] 0) = [VL [vq (q 0 1)]] /\
+  behaviour (wctr V_pre) (wctr_codec V_pre) wcfg3 2 (ctr_pre ++ [o_reset 0; o_new 1] ++ cont_on [ctr_b 1] 1) = [VL [vq (q 1 1)]].
 Proof. split; vm_compute; reflexivity. Qed.
 
 (* the other four classes *)
 Definition wcal_b (x y : Z) : val := VL [vrow [x]; vrow [y]; vrow [1%Z]].
-Lemma wcal_load_breaks : load_breaks (wcal false) (wcal_codec false).
+Lemma wcal_load_breaks : load_breaks (wcal V_code) (wcal_codec V_code).
 Proof. exists wcfg3, [o_upd 0 (wcal_b 1 1); o_upd 0 (wcal_b 0 1)], [wcal_b 1 1; wcal_b 1 1; wcal_b 1 1]. vm_compute. discriminate. Qed.
-Lemma wcal_reset_breaks : reset_breaks (wcal false) (wcal_codec false).
+Lemma wcal_reset_breaks : reset_breaks (wcal V_pre) (wcal_codec V_pre).
 Proof. exists wcfg3, [o_upd 0 (wcal_b 1 1); o_upd 0 (wcal_b 0 1)], [wcal_b 1 1; wcal_b 1 1; wcal_b 1 1]. vm_compute. discriminate. Qed.
 Definition wmse_b (x y : Z) : val := VL [vrow [x]; vrow [y]; vrow [1%Z]].
-Lemma wmse_load_breaks : load_breaks (wmse false) (wmse_codec false).
+Lemma wmse_load_breaks : load_breaks (wmse V_code) (wmse_codec V_code).
 Proof. exists wcfg3, [o_upd 0 (wmse_b 1 0); o_upd 0 (wmse_b 0 0)], [wmse_b 2 0; wmse_b 0 0; wmse_b 0 0]. vm_compute. discriminate. Qed.
-(* NOTE: reset() of WindowedMeanSquaredError is NOT refuted: its compute() always sums the whole
+(* NOTE: (pre-fix variant) reset() of WindowedMeanSquaredError is NOT refuted: its compute() always sums the whole
    (zero-padded) buffer, so a stale cursor after reset() is only a rotation of the slots. *)
 Definition wne_b (num : Z) (y : Z) : val := VL [VL [VL [VQ num 4]]; vrow [y]; vrow [1%Z]].
-Lemma wne_load_breaks : load_breaks (wne false) (wne_codec false).
+Lemma wne_load_breaks : load_breaks (wne V_code) (wne_codec V_code).
 Proof. exists wcfg3, [o_upd 0 (wne_b 1 1); o_upd 0 (wne_b 1 0)], [wne_b 3 1; wne_b 3 1; wne_b 3 1]. vm_compute. discriminate. Qed.
-Lemma wne_reset_breaks : reset_breaks (wne false) (wne_codec false).
+Lemma wne_reset_breaks : reset_breaks (wne V_pre) (wne_codec V_pre).
 Proof. exists wcfg3, [o_upd 0 (wne_b 1 1); o_upd 0 (wne_b 1 0)], [wne_b 3 1; wne_b 3 1; wne_b 3 1]. vm_compute. discriminate. Qed.
 Definition acfg3 : acfg := {| aT := 1; aN := 3 |}.
 Definition au_b (num : Z) (y : Z) : val := VL [VL [VL [VQ num 8]]; vrow [y]; vrow [1%Z]].
-Lemma wauroc_load_breaks : load_breaks (wauroc false) (wauroc_codec false).
+Lemma wauroc_load_breaks : load_breaks (wauroc V_code) (wauroc_codec V_code).
 Proof. exists acfg3, [o_upd 0 (au_b 7 0); o_upd 0 (au_b 6 1)], [au_b 5 1; au_b 4 0; au_b 3 1]. vm_compute. discriminate. Qed.
-Lemma wauroc_reset_breaks : reset_breaks (wauroc false) (wauroc_codec false).
+Lemma wauroc_reset_breaks : reset_breaks (wauroc V_pre) (wauroc_codec V_pre).
 Proof. exists acfg3, [o_upd 0 (au_b 7 0); o_upd 0 (au_b 6 1)], [au_b 5 1; au_b 4 0; au_b 3 1]. vm_compute. discriminate. Qed.
 
-(* ---- V_fixed: the cursor is part of the saved / reset state ---- *)
-Lemma win_fixed_load W c tgt s : load (win_metric W true) c tgt (save (win_metric W true) c s) = s.
+(* ---- load on V_fixed (cursor saved); reset on every variant that rewinds the cursor:
+        V_code (the code since c5ceb09) and V_fixed ---- *)
+Lemma win_fixed_load W c tgt s : load (win_metric W V_fixed) c tgt (save (win_metric W V_fixed) c s) = s.
 Proof. reflexivity. Qed.
-Lemma win_fixed_reset W c s : rst (win_metric W true) c s = init (win_metric W true) c.
+Lemma win_reset_init W v c s : cur_reset v = true -> rst (win_metric W v) c s = init (win_metric W v) c.
+Proof. intros H. cbn. rewrite H. reflexivity. Qed.
+Lemma wauroc_fixed_load c tgt s : load (wauroc V_fixed) c tgt (save (wauroc V_fixed) c s) = s.
 Proof. reflexivity. Qed.
-Lemma wauroc_fixed_load c tgt s : load (wauroc true) c tgt (save (wauroc true) c s) = s.
-Proof. reflexivity. Qed.
-Lemma wauroc_fixed_reset c s : rst (wauroc true) c s = init (wauroc true) c.
-Proof. reflexivity. Qed.
+Lemma wauroc_reset_init v c s : cur_reset v = true -> rst (wauroc v) c s = init (wauroc v) c.
+Proof. intros H. cbn. rewrite H. reflexivity. Qed.
 
 (* Pool level, for any metric with these two equations: save+load into ANY object yields the very
    state a deep copy yields; reset yields the very state of a fresh object.  Identical states
